@@ -1108,13 +1108,15 @@ class ChannelFileRead(ChannelFile):
 
     def readline(self) -> str:
         if self._buffer is not None:
-            i = self._buffer.find("\n")
+            newline = "\n" if isinstance(self._buffer, str) else b"\n"
+            i = self._buffer.find(newline)
             if i != -1:
                 return self.read(i + 1)
             line = self.read(len(self._buffer) + 1)
         else:
             line = self.read(1)
-        while line and line[-1] != "\n":
+        newline = "\n" if isinstance(line, str) else b"\n"
+        while line and line[-1:] != newline:
             c = self.read(1)
             if not c:
                 break
